@@ -221,6 +221,7 @@ func NewFrontend(logic frontend.TrackerLogic, provided Config) (*Frontend, error
 			Handler:      f.handler(),
 			ReadTimeout:  f.ReadTimeout,
 			WriteTimeout: f.WriteTimeout,
+			IdleTimeout:  f.IdleTimeout,
 		}
 		f.tlsSrv.SetKeepAlivesEnabled(f.EnableKeepAlive)
 	}
